@@ -29,10 +29,11 @@ ASSUMPTIONS = ["'bounded time' is checked against a horizon of 40 s of virtual t
 
 CONNECT_ALPHABET = ("refuse", "accept")
 INJECT_ALPHABET = ("nop", "eof", "reset", "unreach", "garbage", "badcrc", "truncated", "werr", "badmsg", "subraise", "undecodable")
+# "connsubraise": the next connection-changed notification (connected or disconnected) makes a subscriber raise
 
 
 def bounds(tier):
-    return {"script_depth": {"quick": {"full": 3, "wfault": 4, "rx": 3}, "thorough": {"full": 4, "wfault": 6, "rx": 5}}[tier],
+    return {"script_depth": {"quick": {"full": 3, "wfault": 4, "rx": 3, "subs": 3}, "thorough": {"full": 4, "wfault": 6, "rx": 5, "subs": 5}}[tier],
             "connect_alphabet": CONNECT_ALPHABET, "inject_alphabets": ALPHABETS,
             "user_send_instant": "[0,4] symbolic", "connect_latency": "(0,3] symbolic", "horizon_after_script_s": 40}
 
@@ -41,12 +42,13 @@ ALPHABETS = {
     "full": INJECT_ALPHABET,
     "wfault": ("nop", "werr", "reset", "unreach", "badmsg"),
     "rx": ("nop", "eof", "garbage", "badcrc", "truncated", "undecodable", "subraise"),
+    "subs": ("nop", "eof", "reset", "werr", "subraise", "connsubraise"),
 }
 
 
 def instances(tier):
     out = []
-    plan = {"quick": {"full": 3, "wfault": 4, "rx": 3}, "thorough": {"full": 4, "wfault": 6, "rx": 5}}[tier]
+    plan = {"quick": {"full": 3, "wfault": 4, "rx": 3, "subs": 3}, "thorough": {"full": 4, "wfault": 6, "rx": 5, "subs": 5}}[tier]
     for g in (4, 5):
         for alph, d in plan.items():
             lo = 1 if alph == "full" else d
@@ -86,7 +88,7 @@ def run(ctx, p):
         framing.frame(g.n, 0xB0, 0x80, 9, 0xC0, framing.c0(0x23, [], 10, 1, [0xF0, 0xFF] + [0] * 8))
     tsend = ctx.real("tsend", 0, 4)
     lat = ctx.real("lat", 0, 3, lo_strict=True)
-    state = {"step": 0, "trace": [], "raise_next": False}
+    state = {"step": 0, "trace": [], "raise_next": False, "conn_raise_next": False}
 
     def choose(alphabet):
         i = ctx.choice(f"s{state['step']}_{len(state['trace'])}", len(alphabet))
@@ -130,6 +132,13 @@ def run(ctx, p):
 
         rig.sock.subscribe_on_connection_changed(greeting_subscriber)
 
+        async def raising_conn_subscriber(*, connected):
+            if state["conn_raise_next"]:
+                state["conn_raise_next"] = False
+                raise RuntimeError("connection subscriber failure")
+
+        rig.sock.subscribe_on_connection_changed(raising_conn_subscriber)
+
         async def user_send(msg, policy):
             try:
                 await rig.sock.send(msg, policy)
@@ -149,6 +158,8 @@ def run(ctx, p):
                     rig.spawn(user_send(_unencodable(g), S.RetryPolicy(1, 5.0)))
                 elif a == "werr":
                     fail_drain["on"] = True
+                elif a == "connsubraise":
+                    state["conn_raise_next"] = True
                 elif not live:
                     continue           # console-side actions need a live connection (transport contract)
                 elif a == "eof":
@@ -180,6 +191,7 @@ def run(ctx, p):
         rig.loop.vt_run(t_script_end)
         state["step"] = max(state["step"], depth)     # the network behaves from now on
         fail_drain["on"] = False
+        state["conn_raise_next"] = False
         rig.loop.vt_run(t_script_end + 20.0)
         ctx.observe("trace", tuple(state["trace"]))
         detail = {"trace": state["trace"]}
